@@ -15,6 +15,7 @@ require (
 	github.com/Nvveen/Gotty v0.0.0-20120604004816-cd527374f1e5 // indirect
 	github.com/cespare/xxhash v1.1.0 // indirect
 	github.com/google/pprof v0.0.0-20190930153522-6ce02741cba3 // indirect
+	github.com/klauspost/compress v1.8.6 // indirect
 	github.com/shirou/gopsutil v2.19.9+incompatible // indirect
 	github.com/spaolacci/murmur3 v1.1.0 // indirect
 	golang.org/x/net v0.0.0-20200226121028-0de0cce0169b // indirect
